@@ -464,8 +464,11 @@ def consumer(ctx):
                     all(is_const(a_, w_) for a_, w_ in zip(in_axes.args, want_axes))):
                 bad.append("in_axes does not map the two index lists over axis 0 and broadcast the Green's function")
         ctx.ob("PAIR-1", f"multislater.{meth}: every sub-determinant pairs cre/des lists of one spin and one block "
-               f"with that spin's Green's function", n >= 4 and not bad,
+               f"with that spin's Green's function", not bad,
                f"{n} sub-determinant sites" + (f"; {sorted(set(bad))}" if bad else ""), fi)
+        if n < 4:
+            ctx.rep.note(f"multislater.{meth}: {n} sub-determinant call site(s) recognised (4 in the pinned tree: the excitation "
+                         f"blocks may be walked by one loop over a table of block keys); the ones found are judged")
         # coefficient keys: coeff[(i, 0)] with A(i,0), coeff[(0, i)] with B(0,i), coeff[(i,j)] with product
         _coeff_pairing(ctx, fi, ev3)
 
